@@ -2010,6 +2010,9 @@ func (s *BgpServer) handleFSMMessage(peer *peer, e *fsmMsg) {
 			peer.fsm.pConf.Update(&conf)
 			peer.fsm.lock.Unlock()
 		}
+		// the event describes the session that ends (router id, ports): build
+		// it before the state of an administratively disabled peer is cleared
+		peerEvent := newWatchEventPeer(peer, e, nextState, oldState, apiutil.PEER_EVENT_STATE)
 		// clear counter
 		if peer.AdminState() == adminStateDown {
 			peer.fsm.lock.Lock()
@@ -2022,7 +2025,7 @@ func (s *BgpServer) handleFSMMessage(peer *peer, e *fsmMsg) {
 			peer.fsm.bgpMessageResetStats()
 			peer.fsm.lock.Unlock()
 		}
-		s.broadcastPeerState(peer, nextState, oldState, e)
+		s.notifyWatcher(watchEventTypePeerState, peerEvent)
 	case fsmMsgBGPMessage:
 		m := e.MsgData.(*bgp.BGPMessage)
 		if m.Header.Type == bgp.BGP_MSG_UPDATE {
